@@ -26,9 +26,9 @@ pub fn payload(len: usize, seed: u32) -> Vec<u8> {
     for _ in 0..len { x = x.wrapping_mul(1664525).wrapping_add(1013904223); v.push((x >> 24) as u8); }
     v
 }
-struct Toks<'a> { t: Vec<&'a str>, i: usize }
+pub struct Toks<'a> { pub t: Vec<&'a str>, pub i: usize }
 impl<'a> Toks<'a> {
-    fn next(&mut self) -> &'a str { let x = self.t[self.i]; self.i += 1; x }
+    pub fn next(&mut self) -> &'a str { let x = self.t[self.i]; self.i += 1; x }
     fn string(&mut self) -> String { String::from_utf8(unhex(self.next())).unwrap() }
     fn path(&mut self) -> RootRelativePath { crate::root_relative_path::verif_hooks::wire_from_raw(self.string()) }
     fn u64(&mut self) -> u64 { self.next().parse().unwrap() }
@@ -56,7 +56,7 @@ impl<'a> Toks<'a> {
         };
         ProgressMarker { completed_work, phase }
     }
-    fn command(&mut self) -> Command {
+    pub fn command(&mut self) -> Command {
         match self.next() {
             "SetRoot" => Command::SetRoot { root: self.string() },
             "GetEntries" => {
@@ -85,7 +85,7 @@ impl<'a> Toks<'a> {
             x => panic!("command {}", x),
         }
     }
-    fn response(&mut self) -> Response {
+    pub fn response(&mut self) -> Response {
         match self.next() {
             "RootDetails" => {
                 let root_details = match self.next() { "none" => None, _ => { let t = self.next(); Some(self.details_after(t)) } };
